@@ -292,6 +292,31 @@ def sort_ties():
     return out
 
 
+def twin_rows():
+    """rows of one or-group (matrix rows, or-operands) that are identical except for ONE attribute of
+    one predicate -- its case flag, its cast, its match type, its pattern kind -- so that any
+    structural notion of "the same row / the same search" that forgets the attribute merges them"""
+    out = []
+    docs = [{"cmd": "FOO", "user": "root"}, {"cmd": "foo", "user": "root"}, {"cmd": "xfoo", "user": "root"}, {"cmd": "BAR", "user": "adm"},
+            {"cmd": 5, "user": "root"}, {"cmd": "5", "user": "root"}, {"cmd": "foo"}, {"user": "root"}, {}]
+    twins = [(["*foo*", "*bar*"], ["i*foo*", "i*bar*"]), (["foo", "bar"], ["ifoo", "ibar"]), (["foo*", "bar*"], ["*foo", "*bar"]),
+             (["?foo", "?bar"], ["i?foo", "i?bar"]), ("foo", "ifoo"), ("*foo*", "foo"), ("?^foo", "i?^foo"), (["5*", "6*"], ["i5*", "i6*"])]
+    for a, b in twins:
+        for first, second in ((a, b), (b, a)):
+            rows = [{"cmd": first, "user": "root"}, {"cmd": second, "user": "root"}, {"cmd": "zzz", "user": "adm"}]
+            for cond in ("A", "not A", "of(A, 2)", "all(A)"):
+                out.append(({"A": rows, "condition": cond}, docs))
+            out.append(({"X": {"cmd": first, "user": "root"}, "Y": {"cmd": second, "user": "root"}, "Z": {"cmd": "zzz", "user": "adm"},
+                         "condition": "X or Y or Z"}, docs))
+            out.append(({"A": [{"n": {"cmd": first, "user": "root"}}, {"n": {"cmd": second, "user": "root"}}], "condition": "A"},
+                        [{"n": d} for d in docs[:6]] + [{"n": [docs[0], docs[3]]}, {}]))
+    for k1, k2 in (("cmd", "str(cmd)"), ("str(cmd)", "cmd")):
+        rows = [{k1: ["5*", "6*"], "user": "root"}, {k2: ["5*", "6*"], "user": "root"}, {"cmd": "zzz", "user": "adm"}]
+        out.append(({"A": rows, "condition": "A"}, docs))
+        out.append(({"A": rows, "condition": "not A"}, docs))
+    return out
+
+
 def rewrite_patterns():
     """regexes around the `.*` stripping of the rewrite pass: the pattern that IS `.*`, doubled,
     overlapping, escaped, inside groups, in lists and in regex sets built by shake"""
@@ -336,7 +361,7 @@ def loader_errors():
 FAMILIES = [("scalar_casts", scalar_casts), ("list_casts", list_casts), ("cond_casts", cond_casts),
             ("quantified_cast_bodies", quantified_cast_bodies), ("many_needles", many_needles), ("nested_matrix", nested_matrix), ("nested_and_merge", nested_and_merge), ("wide_matrix", wide_matrix),
             ("wide_matrix_quant", wide_matrix_quant), ("matrix_duplicate_fields", matrix_duplicate_fields),
-            ("sort_comparators", sort_comparators), ("sort_ties", sort_ties), ("rewrite_patterns", rewrite_patterns), ("list_of_blocks", list_of_blocks), ("already_optimised", already_optimised), ("loader_errors", loader_errors)]
+            ("sort_comparators", sort_comparators), ("sort_ties", sort_ties), ("twin_rows", twin_rows), ("rewrite_patterns", rewrite_patterns), ("list_of_blocks", list_of_blocks), ("already_optimised", already_optimised), ("loader_errors", loader_errors)]
 
 
 def all_cases(skip=()):
